@@ -67,6 +67,32 @@ SETUP_STREAMS = method({
     'raises': {},
 })
 
+def syntactic_streams(E):
+    """decided on the real source (the capture stream class is built inside _makeBufferedStdStream; its io behaviour is
+    an assumed contract, these are the two facts of that contract the properties lean on)"""
+    import ast
+    fdef, _, src = E.find_def('runner.TestResult._makeBufferedStdStream')
+    ok = False
+    for n in ast.walk(fdef):
+        if isinstance(n, ast.Call) and isinstance(n.func, ast.Attribute) and n.func.attr == 'decode':
+            kw = {k.arg: k.value for k in n.keywords}
+            e = kw.get('errors')
+            ok = isinstance(e, ast.Constant) and e.value in ('backslashreplace', 'replace', 'ignore', 'surrogateescape')
+    E.syntactic_obligation("the capture stream's getvalue() decodes with an error handler that never raises "
+                           "(undecodable bytes written by a test must not abort the run)", ok, props=('C13', 'C04'))
+    tree = E.module('threadsupport')[0]
+    cls = [n for n in ast.walk(tree) if isinstance(n, ast.ClassDef) and n.name == 'ThreadProxy']
+    eq_ok = hash_ok = False
+    if cls:
+        meths = {m.name: m for m in cls[0].body if isinstance(m, ast.FunctionDef)}
+        eq = meths.get('__eq__')
+        eq_ok = eq is not None and ast.unparse(eq.body[-1]).replace(' ', '') == 'returnself.thread.ident==other.thread.ident'
+        h = meths.get('__hash__')
+        hash_ok = h is None or ast.unparse(h.body[-1]).replace(' ', '') == 'returnhash(self.thread.ident)'
+    E.syntactic_obligation("ThreadProxy compares by ident and defines no hash that disagrees with it (snapshots are "
+                           "compared by ident whatever container holds them)", eq_ok and hash_ok, props=('C19',))
+
+
 def _set_put(st, g, z, val):
     from pyvc.vals import HDict
     ref = st.ghost[g]
@@ -693,6 +719,7 @@ def register(E):
         "G.bad counts bad outcomes: +1 per base addError/addFailure/addUnexpectedSuccess/addSubTest(exc) call",
         "T4: t.is_alive(), t.name and re.match(p, name) are pure within one stopTest call",
     ]
+    syntactic_streams(E)
     R = 'runner.TestResult.'
     E.records['runner.TestResult'] = SELF
     E.record_dynamic['runner.TestResult'] = DYNAMIC
